@@ -129,6 +129,20 @@ CLAIMED = {
         'Trusted: vlib/c06_lib.py evaluator (models from z3 are validated by concrete evaluation before they count); '
         'z3 resource limits make unknown answers inconclusive.',
         'DESIGN.md §2 C06'),
+    'C07': (
+        'exhaustive operator-nesting ladder + Hypothesis terms, types, sequents, instantiations and proof items; oracle = '
+        'parse(print(x)) equals x (independent alpha-equivalence and holpy ==) under every printer setting, and text '
+        'printed after a drawn history compared with text printed by a never-used forked process',
+        'Exploration. About 26 600 (frame, position, filler) pairs enumerate every table operator, binder, literal and '
+        'notation at several type instances and arities in every argument position (ASCII, every third also Unicode), '
+        'plus ~10 000 random deeper terms over the signatures of 9 theories, all 1 660 library statements, types, '
+        'sequents, Inst / TyInst and ProofItems of all ten argument-signature kinds under unicode x highlight x '
+        'line_length settings, and 540 history cases. The finite ladder is covered completely; beyond it the property '
+        'is sampled, not proved.',
+        'Trusted: vlib/ref.py alpha-equivalence, the domain validator of vlib/c07_lib.py (constants at declared '
+        'instances), fork-per-print fresh processes as the history oracle. Inst objects with tyinst / var_inst have '
+        'no concrete syntax and are not generated.',
+        'DESIGN.md §2 C07'),
     'C10': (
         'Hypothesis (conversion, term) cases and canonicity pairs; results checked by the kernel, by holpy/ref equality '
         'of the left side, by eval/proof agreement and by semantic evaluation of both sides',
